@@ -376,7 +376,67 @@ func c08hExec(op []string) string {
 	var out strings.Builder
 	out.WriteString("ok")
 	c08hDump(&out, v.Elem())
+	c08hScribble(v.Elem(), 0)
 	return out.String()
+}
+
+
+// c08hScribble overwrites, in place, everything the result holds by reference (slice elements, map values) after the result
+// was printed — what a caller may do with a value that was handed to it.  State that the unmarshaller shares between
+// calls (a cached default handed out without a copy, a pooled buffer) then shows in the next result that relies on it.
+func c08hScribble(v reflect.Value, depth int) {
+	if depth > 8 {
+		return
+	}
+	switch v.Kind() {
+	case reflect.Ptr, reflect.Interface:
+		if !v.IsNil() {
+			c08hScribble(v.Elem(), depth+1)
+		}
+	case reflect.Struct:
+		for i := 0; i < v.NumField(); i++ {
+			if v.Type().Field(i).IsExported() {
+				c08hScribble(v.Field(i), depth+1)
+			}
+		}
+	case reflect.Slice:
+		for i := 0; i < v.Len(); i++ {
+			e := v.Index(i)
+			c08hScribble(e, depth+1)
+			c08hScribbleScalar(e)
+		}
+	case reflect.Map:
+		for _, k := range v.MapKeys() {
+			e := v.MapIndex(k)
+			c08hScribble(e, depth+1)
+			n := reflect.New(v.Type().Elem()).Elem()
+			n.Set(e)
+			if c08hScribbleScalar(n) {
+				v.SetMapIndex(k, n)
+			}
+		}
+	}
+}
+
+func c08hScribbleScalar(e reflect.Value) bool {
+	if !e.CanSet() {
+		return false
+	}
+	switch e.Kind() {
+	case reflect.String:
+		e.SetString("~scribbled~")
+	case reflect.Bool:
+		e.SetBool(!e.Bool())
+	case reflect.Int, reflect.Int8, reflect.Int16, reflect.Int32, reflect.Int64:
+		e.SetInt(77)
+	case reflect.Uint, reflect.Uint8, reflect.Uint16, reflect.Uint32, reflect.Uint64:
+		e.SetUint(77)
+	case reflect.Float32, reflect.Float64:
+		e.SetFloat(77.5)
+	default:
+		return false
+	}
+	return true
 }
 
 // ---------------------------------------------------------------- generator
@@ -394,6 +454,48 @@ type c08hField struct {
 	lo, hi          int
 	options         []string
 	fromString      bool
+	dotted          bool
+}
+
+// number of the section being generated (dotted key texts are per section)
+var c08hSec int
+
+// c08hNode collects the JSON bindings that dotted keys need below their first segments
+type c08hNode struct {
+	order []string
+	kids  map[string]*c08hNode
+	leaf  string
+}
+
+func (n *c08hNode) at(path []string) *c08hNode {
+	cur := n
+	for _, k := range path {
+		if cur.kids == nil {
+			cur.kids = map[string]*c08hNode{}
+		}
+		nx, ok := cur.kids[k]
+		if !ok {
+			nx = &c08hNode{}
+			cur.kids[k] = nx
+			cur.order = append(cur.order, k)
+		}
+		cur = nx
+	}
+	return cur
+}
+
+func (n *c08hNode) emit(sb *strings.Builder) {
+	for _, k := range n.order {
+		c := n.kids[k]
+		sb.WriteString(" " + k + " ")
+		if c.leaf != "" && len(c.order) == 0 {
+			sb.WriteString(c.leaf)
+			continue
+		}
+		sb.WriteString("{")
+		c.emit(sb)
+		sb.WriteString(" }")
+	}
 }
 
 var c08hPrimNames = []string{"bool", "int", "i8", "i32", "i64", "uint", "u8", "u16", "f32", "f64", "str", "str", "int"}
@@ -477,6 +579,17 @@ func c08hGenType(r *verifh.Rng) []*c08hField {
 	for i := 0; i < n; i++ {
 		f := &c08hField{name: fmt.Sprintf("F%d", i), key: keys[i], src: r.PickS("path", "form", "form", "header", "json", "json")}
 		f.prim = c08hPrimNames[r.Intn(len(c08hPrimNames))]
+		if r.Chance(1, 7) {
+			// a key with dots: path and form look it up literally (WithOpaqueKeys), header and json walk it segment by
+			// segment; the text carries the number of the section (the package-level key cache of core/mapping is then
+			// filled for it by this section alone) and is shared by the types of the section, so that the same text is
+			// seen under both kinds of unmarshaler, in both orders
+			f.key = fmt.Sprintf("%s%d.%s", r.PickS("p", "p", "q"), c08hSec, f.key)
+			if r.Chance(1, 6) {
+				f.key = fmt.Sprintf("p%d.q.%s", c08hSec, keys[i])
+			}
+			f.dotted = true
+		}
 		switch {
 		case f.src == "json" && r.Chance(1, 5):
 			f.prim = ""
@@ -639,6 +752,7 @@ func c08hGenOp(r *verifh.Rng, fs []*c08hField) string {
 		}
 	}
 	var pb, fb, hb, jb strings.Builder
+	jtree := &c08hNode{}
 	anyJSON := false
 	for _, f := range fs {
 		if !present[f.key] {
@@ -687,9 +801,31 @@ func c08hGenOp(r *verifh.Rng, fs []*c08hField) string {
 			b.WriteString(" ]")
 		default:
 			anyJSON = true
+			if f.dotted {
+				v := c08hJSONValue(r, f)
+				segs := strings.Split(key, ".")
+				switch mode := r.Intn(20); {
+				case mode < 11:
+					jtree.at(segs).leaf = v // where the chained lookup finds it
+				case mode < 13:
+					jb.WriteString(" " + key + " " + v) // the literal key: not what the json unmarshaler looks up
+				case mode < 15:
+					jtree.at(segs).leaf = v
+					jb.WriteString(" " + key + " " + c08hJSONValue(r, f))
+				case mode < 18:
+					jtree.at(segs[:len(segs)-1]) // only the enclosing object binds the last segment: the lookup falls back to it
+					jb.WriteString(" " + segs[len(segs)-1] + " " + v)
+				case mode < 19:
+					jtree.at(segs[:1]).leaf = "n:1"
+				default:
+					jtree.at(segs[:len(segs)-1])
+				}
+				continue
+			}
 			jb.WriteString(" " + key + " " + c08hJSONValue(r, f))
 		}
 	}
+	jtree.emit(&jb)
 	body := "none"
 	if anyJSON || r.Chance(1, 3) {
 		body = "{" + jb.String() + " }"
@@ -707,6 +843,7 @@ func c08hGen(r *verifh.Rng) []verifh.Section {
 	nsec := verifh.Scale(40, 200)
 	for i := 0; i < nsec; i++ {
 		var ops []string
+		c08hSec = i
 		if i == 0 {
 			ops = append(ops,
 				"p T { A int t:path|a,range=[1:5] B str t:form|b,options=foo|bar C [] int t:form|c,optional D str t:header|x-d,optional E int t:json|e,default=3 } P { a s:5 } F { b [ s:foo ] c[] [ s:1 s: s:2 ] } H { x-d [ s:v ] } B none",
